@@ -22,7 +22,10 @@ from ..core import cz, clist, copt
 ID = "C11"
 THEOREMS = ["C11_lists_aligned", "C11_rows_are_engine_answers", "C11_transcript_chain", "C11_candidates_legal",
             "C11_recorded_rows_good", "C11_stops_exactly", "C11_result_correct", "C11_labels_correct",
-            "C11_labels_by_parity", "C11_errors_excluded", "C11_loop_is_relation"]
+            "C11_labels_by_parity", "C11_errors_excluded", "C11_loop_is_relation",
+            "C11_answer_of_tree_reads", "C11_real_engine_transcript_legal", "C11_real_engine_rows_partial",
+            "C11_real_engine_answers_good_partial", "C11_real_engine_exact_solver_rows_partial",
+            "C11_transcript_positions_wf", "C11_transcript_positions_encodable"]
 MODEL_TARGETS = ["model/Tak.vo", "model/Road.vo", "model/SelfPlay.vo", "model/Harness.vo", "model/Lit.vo"]
 TRUSTED_BASE = [
     "the engine is an input stream: per analysed position the recorder reads [c.move for c in tree.children], "
